@@ -72,12 +72,23 @@ def run(ctx: core.Ctx) -> int:
             v = v.value
         return isinstance(v, ast.Call) and ast.unparse(v.func).split(".")[-1] in ("eig", "eigh", "eigvals", "eigvalsh")
     eig_names = {n for n, vs in env.items() if any(_is_eig(v) for v in vs)}
+    def _eig_operand(e):
+        """the operand IS the eigenvalue quantity (possibly .real / indexed / reduced by min), not a tolerance that merely mentions its magnitude"""
+        while True:
+            if isinstance(e, ast.Subscript):
+                e = e.value
+            elif isinstance(e, ast.Attribute) and e.attr == "real":
+                e = e.value
+            elif isinstance(e, ast.Call) and ast.unparse(e.func).split(".")[-1] in ("min", "amin", "real") and len(e.args) == 1 and not e.keywords:
+                e = e.args[0]
+            else:
+                break
+        return (isinstance(e, ast.Name) and e.id in eig_names) or _is_eig(e)
     comps = []
     for c in ast.walk(fn):
         if isinstance(c, ast.Compare) and len(c.ops) == 1 and isinstance(c.ops[0], (ast.Lt, ast.LtE, ast.Gt, ast.GtE)):
             l, r = c.left, c.comparators[0]
-            le = any(isinstance(n, ast.Name) and n.id in eig_names for n in ast.walk(l)) or "eig" in ast.unparse(l)
-            re_ = any(isinstance(n, ast.Name) and n.id in eig_names for n in ast.walk(r)) or "eig" in ast.unparse(r)
+            le, re_ = _eig_operand(l), _eig_operand(r)
             if le != re_:
                 comps.append((c, r if le else l))
     ctx.floor("GATE-REL", len(comps), 1, "eigenvalue comparisons in assert_valid_covariance")
